@@ -30,6 +30,7 @@ EXPLANATION = (
     ' (R13) while BaseFieldInfo hashes / compares by name, the @check / @parser factories (pandas/polars and pyspark) hand the designations to the *Info object without set / frozenset / dict-key / set-comprehension: at decoration time every class-scope Field still has name None and a hash container would keep only the first.'
     " (R14) the MRO-walking collectors of @check / @dataframe_check / @parser methods record a name as seen for every attribute (not only behind the isinstance(info, <Kind>Info) filter), so a subclass attribute of another kind hides the parent's method as attribute lookup does."
     ' (R15) in the Config-extras conversion (the function calling getattr(Check, name)(*args, **kwargs)) the value is splatted positionally exactly under isinstance(value, tuple) and as keywords exactly under isinstance(value, dict).'
+    ' (R16) in the pandas and polars column builders the raw annotation is handed to Engine.dtype only on paths where annotation.metadata is empty (path condition), so the parameters of Annotated[dtype, *params] are never dropped by resolving the annotation through its origin.'
 )
 LEVEL_RULE = "one obligation per twin pair / config option / dispatch key / field attribute / write site"
 FLOORS = {"R1": 4, "R2": 12, "R3": 16, "R4": 14, "R5": 1, "R6": 1, "R7": 1, "R8": 1, "R9": 1, "R10": 1, "R11": 2, "R12": 3}
@@ -703,6 +704,41 @@ def r15_extras_value_dispatch(ctx):
         raise AnalysisError(f"Config extras conversion: splat sites found: {n}")
 
 
+def r16_annotated_parameters_before_raw_resolution(ctx):
+    """`col: Annotated[<dtype>, *params]` declares `<dtype>(*params)`.  The engines resolve the raw annotation by its
+    origin (`Annotated[pl.Datetime, "ms", "UTC"]` -> the registered Datetime with default unit and zone), silently
+    dropping the parameters.  The column builders therefore consult `annotation.metadata` first and hand the raw
+    annotation to `Engine.dtype` only when there is none - as the pandas builder does; the polars builder that tries the
+    raw annotation first validates `datetime[us]` where the equivalent schema demands `datetime[ms, UTC]`."""
+    from ..cfg import cfg_of
+    from ..util import Expander
+    n = 0
+    for mp in ("pandera/api/pandas/model.py", "pandera/api/polars/model.py"):
+        m = ctx.ix.module(mp)
+        for f in m.all_functions:
+            if not f.name.startswith("_build_columns"):
+                continue
+            sites = [c for c in calls_in(f.node) if callee_last(c) == "dtype" and c.args and txt(c.args[0]).endswith(".raw_annotation")]
+            if not sites:
+                continue
+            cfg = cfg_of(f.node)
+            for c in sites:
+                n += 1
+                ctx.touched(f)
+                st = c
+                while not isinstance(st, ast.stmt):
+                    st = st._parent
+                node = cfg.node_of(st)
+                pc = path_condition(cfg, node.id, keep=lambda t, nn: t.endswith(".metadata")) if node is not None else ((), frozenset())
+                ok = len(pc[0]) == 1 and pc[1] == frozenset({(False,)})
+                ctx.ob("R16", f, f"{mp.split('/')[-2]} {f.short}: the raw annotation is resolved by the engine only when it carries no Annotated parameters", ok,
+                       "reached only when annotation.metadata is empty" if ok else
+                       f"`{txt(c)[:60]}` is tried before / regardless of annotation.metadata ({show_condition(pc)}): `ts: Annotated[pl.Datetime, 'ms', 'UTC']` resolves by its origin to "
+                       "Datetime('us', None) and the parameters are dropped without an error (the pandas builder and Column(pl.Datetime('ms', 'UTC')) keep them)", f.loc(c))
+    if n < 2:
+        raise AnalysisError(f"model column builders: resolutions of the raw annotation found: {n}")
+
+
 def run(ctx):
     from ..defassign import check_modules
     check_modules(ctx, "R8", ('pandera/api/dataframe/model.py', 'pandera/api/dataframe/model_components.py', 'pandera/api/pandas/model.py', 'pandera/api/polars/model.py', 'pandera/api/base/model.py', 'pandera/api/base/model_components.py'), "escapes to_schema()/validate of the model")
@@ -715,6 +751,7 @@ def run(ctx):
     r13_designations_not_hashed_before_named(ctx)
     r14_override_hides_whatever_its_kind(ctx)
     r15_extras_value_dispatch(ctx)
+    r16_annotated_parameters_before_raw_resolution(ctx)
     r1_twins(ctx)
     r2_config(ctx)
     r3_dispatch(ctx)
